@@ -597,18 +597,18 @@ type c08ans struct {
 }
 
 type c08engCase struct {
-	tag  string
-	td   int               // olive:taskDefinition retries of T
-	hist []c08ans          // answers to the requests of T, in order
-	down []c08ans          // answers to the requests of the task behind the gateway, in order (default: ok)
-	errWithResults bool    // the error answers also carry results (only judged by this property's own model)
+	tag            string
+	td             int      // olive:taskDefinition retries of T
+	hist           []c08ans // answers to the requests of T, in order
+	down           []c08ans // answers to the requests of the task behind the gateway, in order (default: ok)
+	errWithResults bool     // the error answers also carry results (only judged by this property's own model)
 	// shape of the process: "" = T -> exclusive gateway -> A|B|C; "direct" = conditional flows directly on T
 	// (x == 1 -> A, x != 1 -> B); "loop" = T --[x < 3]--> T, T --[!(x < 3)]--> end, x a declared result of T
 	shape string
 }
 
 func c08okAns(res, objs map[string]int) c08ans { return c08ans{ok: true, results: res, objs: objs} }
-func c08errAns(mode int, retries int32) c08ans     { return c08ans{mode: mode, retries: retries} }
+func c08errAns(mode int, retries int32) c08ans { return c08ans{mode: mode, retries: retries} }
 
 func c08engCases(tier string) []c08engCase {
 	var cs []c08engCase
